@@ -126,44 +126,50 @@ def feedLoop : List Member → Nat → Bytes × Nat × Nat
       (b ++ r.1, r.2.1 + 1, r.2.2)
     else ([], 0, rem - E.codec.failUse m rem)
 
+/-- the member section of `send_message`: count + (feed members | backlog updates); returns the
+    bytes and the space left in the buffer afterwards (`rem0` = space after the header) -/
+def memberSection (dst : Id) (msg : Msg) (pick : Pick) (rem0 : Nat) : M (Bytes × Nat) := do
+  let s ← getS
+  if Gen.needsPiggyback msg && rem0 > Gen.piggybackMinSpace then
+    let rem := rem0 - 2
+    if Gen.piggybackOnlyActive msg then
+      let idLen := (s.cfg.mps - rem) / 2
+      if idLen == 0 then panicAt .feedEstimateDiv else
+      let cap := max (rem / idLen) Gen.feedMinEstimate
+      let chosen ← chooseLoop cap (fun m => m.active && m.id != dst) s.ms [] 0
+      let r := feedLoop E chosen.reverse rem
+      if E.debug && r.2.1 > 65535 then panicAt .feedCount else
+      pure (u16be r.2.1 ++ r.1, r.2.2)
+    else
+      match fill s.updates rem Gen.fillMaxItems 0 pick.updates with
+      | none => badOracle "updates pick"
+      | some r =>
+        if r.written.length > 65535 then panicAt .fillCount else do
+        modS fun s => { s with updates := r.pending ++ r.done }
+        pure (u16be r.written.length ++ r.written.flatten, r.space)
+  else pure ([], rem0)
+
+/-- the custom-broadcast tail of `send_message` -/
+def customTail (dst : Id) (msg : Msg) (pick : Pick) (space : Nat) : M Bytes := do
+  let s ← getS
+  if space > 0 && Gen.allowCustom msg && E.handler.shouldAdd s.hst dst then
+    match fill s.custom space usizeMax Gen.lenPrefix pick.custom with
+    | none => badOracle "custom pick"
+    | some r =>
+      if E.debug && r.written.any (fun d => d.length > 65535) then panicAt .itemLenU16 else do
+      modS fun s => { s with custom := r.pending ++ r.done }
+      pure (r.written.map (frame Gen.lenPrefix)).flatten
+  else pure []
+
 /-- `Foca::send_message` -/
 def sendMessage (dst : Id) (msg : Msg) : M Unit := do
   let s ← getS
   if E.debug && s.sendCap != s.cfg.mps then panicAt .sendBufCap else
-  let mps := s.cfg.mps
   let hdr := E.codec.encHeader ⟨s.id, s.inc, dst, msg⟩
-  if hdr.length > mps then throwE .encode else
+  if hdr.length > s.cfg.mps then throwE .encode else
   let pick ← nextPick
-  let rem0 := mps - hdr.length
-  let sect : Bytes × Nat ←
-    if Gen.needsPiggyback msg && rem0 > Gen.piggybackMinSpace then
-      let rem := rem0 - 2
-      if Gen.piggybackOnlyActive msg then
-        let idLen := (mps - rem) / 2
-        if idLen == 0 then panicAt .feedEstimateDiv else
-        let cap := max (rem / idLen) Gen.feedMinEstimate
-        let chosen ← chooseLoop cap (fun m => m.active && m.id != dst) s.ms [] 0
-        let r := feedLoop E chosen.reverse rem
-        if E.debug && r.2.1 > 65535 then panicAt .feedCount else
-        pure (u16be r.2.1 ++ r.1, r.2.2)
-      else
-        match fill s.updates rem Gen.fillMaxItems 0 pick.updates with
-        | none => badOracle "updates pick"
-        | some r =>
-          if r.written.length > 65535 then panicAt .fillCount else do
-          modS fun s => { s with updates := r.pending ++ r.done }
-          pure (u16be r.written.length ++ r.written.flatten, r.space)
-    else pure ([], rem0)
-  let s ← getS
-  let tail : Bytes ←
-    if sect.2 > 0 && Gen.allowCustom msg && E.handler.shouldAdd s.hst dst then
-      match fill s.custom sect.2 usizeMax Gen.lenPrefix pick.custom with
-      | none => badOracle "custom pick"
-      | some r =>
-        if E.debug && r.written.any (fun d => d.length > 65535) then panicAt .itemLenU16 else do
-        modS fun s => { s with custom := r.pending ++ r.done }
-        pure (r.written.map (frame Gen.lenPrefix)).flatten
-    else pure []
+  let sect ← memberSection E dst msg pick (s.cfg.mps - hdr.length)
+  let tail ← customTail E dst msg pick sect.2
   emit (.send dst (hdr ++ sect.1 ++ tail))
 
 def sendAll (msg : Msg) : List Id → M Unit
@@ -286,10 +292,7 @@ def handleSelfUpdate (inc : Nat) (st : St) : M Unit := do
   match st with
   | .suspect =>
     let s ← getS
-    let increase := match compare s.inc inc with
-      | .gt => false
-      | .lt => true
-      | .eq => true
+    let increase := Gen.increaseIncarnation s.inc inc
     let inc' := max inc s.inc
     if inc' == 65535 then
       let ok ← attemptRejoin E
